@@ -73,6 +73,8 @@ class Prop(object):
         u.append(('time', {}))
         u.append(('count', {}))
         u.append(('grow', {}))
+        for kname in ('ecdsa_p384a', 'ecdsa_p521a', 'ed25519a', 'rsa1024a'):
+            u.append(('growkey', {'key': kname}))
         return u
 
     # ------------------------------------------------------------------------------------------
@@ -439,6 +441,72 @@ class Prop(object):
             if oc != 'ok':
                 r.viol('count', {'kind': oc}, {}, 'coded count %d must decode to %d: %s' % (c, want, info))
         r.samples.append({'codec': 'S2K count', 'coded': 255, 'octets': wire.s2k_count(255)})
+        return r
+
+    def c_growkey(self, case):
+        """A parsed secret-key packet whose body then changes size in place: protected, and protected again under ciphers with other IV sizes, in every
+        order (depth 2) - from every header form it can arrive in. What is written out has a length field that says what the body is."""
+        import itertools
+        import pgpy
+        from pgpy.constants import SymmetricKeyAlgorithm, HashAlgorithm
+        from mc import keys as K
+        from mc import recips as R
+        from refpgp import keys as rkeys, enc as renc
+        R.set_s2k_count(0)
+        r = Res()
+        raw = K.raw(case['key'], K.T0)
+        body0 = wire.read_packet(rkeys.secret_packet(raw))['body']
+        steps = [('AES256', 'SHA256'), ('CAST5', 'SHA1'), ('Camellia128', 'SHA512')]
+        seqs = [(a,) for a in range(3)] + [(a, b) for a in range(3) for b in range(3)]
+        crossed = set()
+        for fmt, w in [('new', None), ('new', 5), ('old', 1), ('old', 2), ('old', 4)]:
+            try:
+                pkt = wire.packet(5, body0, fmt, w)
+            except wire.WireError:
+                continue
+            for seq in seqs:
+                if case.get('only') is not None and case['only'] != [fmt, w, list(seq)]:
+                    continue
+                r.states += 1
+                label = '%s secret key arriving with a %s header (width %s), protected with %s' % (case['key'], fmt, w, ' then '.join(steps[i][0] for i in seq))
+                try:
+                    key = pgpy.PGPKey.from_blob(pkt)[0]
+                    sizes = [len(body0)]
+                    why = None
+                    for n, i in enumerate(seq):
+                        c, h = SymmetricKeyAlgorithm[steps[i][0]], HashAlgorithm[steps[i][1]]
+                        if n == 0:
+                            key.protect('pw%d' % n, c, h)
+                        else:
+                            with key.unlock('pw%d' % (n - 1)):
+                                key.protect('pw%d' % n, c, h)
+                        r.transitions += 1
+                        out = bytes(key)
+                        try:
+                            rp = wire.read_packet(out + b'\xC0\x01')
+                            if rp['end'] != len(out) or rp['tag'] != 5:
+                                why = 'after step %d the export is not exactly one secret-key packet (its length field covers %d of %d octets)' % (n + 1, rp['end'], len(out))
+                            else:
+                                sizes.append(len(rp['body']))
+                                _p, ints, _info = renc.unprotect_secret(rp['body'], ('pw%d' % n).encode())
+                                if ints != rkeys.secret_ints(raw):
+                                    why = 'after step %d the reference recovers other secret integers' % (n + 1)
+                        except (wire.WireError, renc.DecryptError) as e:
+                            why = 'after step %d the reference cannot read the export: %r' % (n + 1, e)
+                        if why:
+                            break
+                    for a_, b_ in zip(sizes, sizes[1:]):
+                        for edge in (191, 255, 8383, 65535):
+                            if (a_ <= edge) != (b_ <= edge):
+                                crossed.add(edge)
+                    oc = 'ok' if not why else 'mismatch'
+                except Exception as e:
+                    oc, why = 'exception', repr(e)
+                r.outcomes[oc] += 1
+                if oc != 'ok':
+                    r.viol('growkey', {'kind': 'stale-length' if oc == 'mismatch' else oc, 'fmt': fmt}, dict(case, only=[fmt, w, list(seq)]), '%s: %s' % (label, why))
+        r.dim('key', case['key'])
+        r.samples.append({'key': case['key'], 'width_boundaries_crossed': sorted(crossed), 'sequences': len(seqs)})
         return r
 
     def c_grow(self, case):
